@@ -222,6 +222,9 @@ class Ref:
                 elif op == "aget" and len(t) == 3:
                     if int(t[2]) >= len(x): return "bad-op"
                     ret = x[int(t[2])]
+                elif op == "aeq" and len(t) == 3:
+                    if not isnum(t[2]) or int(t[2]) > 1: return "bad-op"
+                    ret = 1 if x == self.a[int(t[2])] else 0; shows = []
                 elif op == "afront" and len(t) == 2:
                     if not x: return "bad-op"
                     ret = x[0]
@@ -344,7 +347,7 @@ A_OPS = ["aappend 0 0", "aappend 0 1", "aappend 0 2", "aappendn 0 1,2", "aappend
          "aresize 0 0 1", "aresize 0 2 1", "aresize 0 5 1", "areserve 0 0", "areserve 0 1", "areserve 0 4", "areserve 0 5",
          "aremovei 0 0", "aremovei 0 1", "aremovei 0 7", "aremove 0 0", "aremoveBack 0", "aremoveFront 0", "aclear 0", "aswap 0",
          "acopy 1", "acopy 0", "aassign 0", "aassign 1", "anewcap 0 2", "anewcap 1 0", "anew 0", "afind 0 1", "aget 0 0",
-         "aappend 1 2"]
+         "aappend 1 2", "aeq 0 1"]
 
 
 def exhaustive(alpha, depth):
@@ -479,7 +482,7 @@ def gen_random(rng, length, kinds, pool_front):
             elif k < 0.76: op = f"aremoveBack {v}"
             elif k < 0.97: op = rng.choice([f"aswap {v}", f"acopy {v}", f"aassign {v}", f"anew {v}", f"anewcap {v} {rng.randrange(0, 41)}",
                                             f"afind {v} {val()}", f"afind {v} {rng.choice(r.a[v]) if r.a[v] else 0}",
-                                            f"aget {v} {pos(n, False)}", f"afront {v}", f"aback {v}"])
+                                            f"aget {v} {pos(n, False)}", f"afront {v}", f"aback {v}", f"aeq {v} {rng.randrange(2)}"])
             else: op = f"aclear {v}"
         h.append(op)
         r.apply(op)
